@@ -24,6 +24,7 @@ CLAUSES = {
     'EntityOK/text': "EntityOK: replacement does not decode to the reference's text (text)",
     'EntityOK/markup': 'EntityOK: literal markup character as replacement in text',
     'EntityOK/rev': 'EntityOK: reverse entry does not decode to the character it replaces',
+    'UrlWsProbe': 'UrlAttrOK(probe): whitespace inside the value of a URL-valued attribute changed (another URL)',
     'RevProbe/text': 'EntityOK(probe): numeric reference to a reverse-mapped character decodes differently',
     'RevProbe/raw': 'EntityOK(probe): a character XML does not allow is written literally',
     'EntProbe/parse': 'EntityOK(probe): output no longer parses',
